@@ -16,3 +16,9 @@ package protocol
 //@   requires c != nil && hi != nil && c.logger != nil
 //@   ensures err != nil ==> result == nil
 //@   note handshake: whatever kind of response body the runtime sends to the RuntimeInfoRequest, no nil pointer is dereferenced - a body without a RuntimeInfoResponse is answered with an error, not used (seed C16_h fell through to info.ProtocolVersion)
+
+//@ func connection.handleMessage
+//@   props C16
+//@   requires c != nil && message != nil
+//@   ensures old(message.MessageType) == MessageResponse ==> !inDom(c.pendingRequests, old(message.ID))
+//@   note a response frame CONSUMES the pending request it answers: when the handler returns, no request with that ID is outstanding any more, so a second (third, ...) response frame with the same ID - the runtime is untrusted - finds nothing and is dropped. The reply channel has room for one value and its reader takes one: a frame that still found the entry would block its handler goroutine on the send forever, holding its decoded frame, and Close() waits for all handlers (seed C16_j left the entry to the caller's deferred delete). Sequential statement only; the interleavings themselves are outside the technique
